@@ -181,13 +181,17 @@ def normalise(rel, fn, qual):
         return {}
     # valid alpha-renaming: injective, and no new name may collide with a name the function already uses
     used = {n.id for n in ast.walk(fn) if isinstance(n, ast.Name)} | params_of(fn)
-    ok = {}
-    for c, r in mapping.items():
-        if r in ok.values():
-            continue
-        if r in used and r not in mapping:      # r is in use and is not itself renamed away
-            continue
-        ok[c] = r
+    # validated against the FINAL accepted set, to a fixpoint: a target name that stays in use (its own renaming was
+    # rejected) must not receive another variable, otherwise two different variables would be merged
+    ok = dict(mapping)
+    changed = True
+    while changed:
+        changed = False
+        for c, r in list(ok.items()):
+            dup = sum(1 for v in ok.values() if v == r) > 1
+            if dup or (r in used and r not in ok):      # r stays in use: it is not itself renamed away in the accepted set
+                del ok[c]
+                changed = True
     # renaming chains (a->b while b->c) are fine when applied simultaneously
     for n in ast.walk(fn):
         if isinstance(n, ast.Name) and n.id in ok:
